@@ -62,6 +62,15 @@ SPEC = {
     floor_bind=450,
     floor_frame=10,
   ),
+  "C40": dict(
+    entries=["smooth.flex", "passive.passive", "constraint.make_constraint", "collision_driver.collision", "forward.fwd_velocity"],
+    select=lambda lc: "flex" in lc.name.lower() or lc.fi.module == "collision_flex",
+    enums=[],
+    areas=set(),
+    what="flex kinematics, flex passive forces, flex constraint rows and flex collision kernels",
+    floor_bind=300,
+    floor_sort=20,
+  ),
   "C08": dict(
     entries=["forward.euler", "forward.implicit", "forward.rungekutta4"],
     enums=["IntegratorType", "JointType"],
@@ -76,6 +85,8 @@ SPEC = {
 def run_family(db, res, tier, prop, extra=None):
   spec = SPEC[prop]
   scope = common.scope_from_entries(db, spec["entries"], res)
+  if "select" in spec:
+    scope = [lc for lc in scope if spec["select"](lc)]
   n, same, temp, other = r_bind.check_bindings(res, scope)
   nw = r_bind.check_in_not_written(res, scope)
   res.floor("schema-named bindings", n, spec["floor_bind"])
@@ -86,8 +97,9 @@ def run_family(db, res, tier, prop, extra=None):
   tags = r_world.discover_tags(list(db.launch_ctxs()) + list(scope))
   nb, _ = r_batch.check_batch(res, scope, tags)
   res.extra["batched_model_accesses"] = nb
-  nd = r_dispatch.check_dispatch(res, db.sm, spec["enums"], spec["areas"])
-  res.floor("dispatch obligations", nd, 3)
+  nd = r_dispatch.check_dispatch(res, db.sm, spec["enums"], spec["areas"]) if spec["enums"] else 0
+  if spec["enums"]:
+    res.floor("dispatch obligations", nd, 3)
   enc_side = [lc for lc in db.launch_ctxs() if lc.fi.module == "set_const"]
   n1, n2 = r_ref.check_reference_fields(res, list(scope) + enc_side)
   if "floor_ref" in spec:
